@@ -10,17 +10,68 @@ static const unsigned ALPHA = 8;                 // letters 'a'.. map to glyph i
 static const unsigned NGLYPH_USED = 20;
 
 struct RuleDef { std::vector<unsigned> match; Bytes action; Bytes constraint; };
-struct PassDef { std::vector<RuleDef> rules; unsigned maxloop; };
+struct PassDef { std::vector<RuleDef> rules; unsigned maxloop; unsigned prectx = 0; Bytes pcons; };   // prectx: pre-context length shared by all rules of the pass; pcons: pass constraint
 
 static void w8(Bytes &b, unsigned v) { b.push_back(u8(v)); }
 static void w16(Bytes &b, unsigned v) { put16(b, v); }
 static void w32(Bytes &b, u32 v) { put32(b, v); }
 
 // opcodes (on-disk numbering)
-enum { NOP = 0, PUSH_BYTE = 1, PUSH_SHORT = 3, ADD = 6, NEXT = 25, COPY_NEXT = 27, PUT_GLYPH8 = 28, PUT_SUBS8 = 29, PUT_COPY = 30, INSERT = 31, DELETE = 32, ASSOC = 33,
+enum { NOP = 0, PUSH_BYTE = 1, PUSH_BYTEU = 2, PUSH_SHORT = 3, PUSH_SHORTU = 4, PUSH_LONG = 5, ADD = 6, NEG = 12, TRUNC8 = 13, TRUNC16 = 14, COND = 15, AND_ = 16, NOT_ = 18, CNTXT_ITEM = 34, ATTR_SUB = 37,
+       PUSH_GLYPH_ATTR_OBS = 41, PUSH_GLYPH_METRIC = 42, PUSH_FEAT = 43, PUSH_ATT_TO_GATTR_OBS = 44, PUSH_ATT_TO_GLYPH_METRIC = 45, PUSH_ISLOT_ATTR = 46, IATTR_ADD = 52, PUSH_PROC_STATE = 54, PUSH_VERSION = 55,
+       PUSH_GLYPH_ATTR = 60, PUSH_ATT_TO_GLYPH_ATTR = 61, BITNOT = 64, BITSET = 65, NEXT = 25, COPY_NEXT = 27, PUT_GLYPH8 = 28, PUT_SUBS8 = 29, PUT_COPY = 30, INSERT = 31, DELETE = 32, ASSOC = 33,
        ATTR_SET = 35, ATTR_ADD = 36, ATTR_SET_SLOT = 38, IATTR_SET_SLOT = 39, PUSH_SLOT_ATTR = 40, POP_RET = 48, RET_ZERO = 49, RET_TRUE = 50, IATTR_SET = 51 };
 
-static void gen_action(Rng &r, unsigned len, bool subst, Bytes &a, unsigned numUser) {
+
+// Stack expressions: every generated expression leaves exactly one value. Slot references stay inside [rel_lo, rel_hi]
+// (what the loader accepts at this point of the rule) except for a rare stray one.
+static void gen_leaf(Rng &r, int rel_lo, int rel_hi, unsigned numUser, Bytes &a) {
+    int rel = rel_lo + int(r.below(u32(rel_hi - rel_lo + 1)));
+    if (r.chance(1, 120)) rel = int(r.below(7)) - 3;
+    static const u32 longs[] = {0x7FFFFFFFu, 0x80000000u, 0xFFFFFFFFu, 0, 1, 0x00010000u, 0x7FFF0000u, 0x80000001u};
+    static const unsigned attrs[] = {0, 1, 2, 3, 4, 13, 14, 15, 16, 17, 18, 19, 20, 21, 22, 23, 24, 25, 26, 27, 28, 29, 54, 56, 57, 58, 62, 66, 69, 77};
+    u32 c = r.below(100);
+    if (c < 16) { w8(a, PUSH_BYTE); w8(a, r.below(256)); }
+    else if (c < 21) { w8(a, PUSH_BYTEU); w8(a, r.below(256)); }
+    else if (c < 29) { w8(a, PUSH_SHORT); w16(a, r.chance(1, 4) ? (r.chance(1, 2) ? 0x7FFF : 0x8000) : r.below(65536)); }
+    else if (c < 33) { w8(a, PUSH_SHORTU); w16(a, r.below(65536)); }
+    else if (c < 42) { w8(a, PUSH_LONG); w32(a, r.chance(1, 2) ? longs[r.below(8)] : u32(r.next())); }
+    else if (c < 60) { unsigned at = r.chance(1, 3) ? r.below(78) : attrs[r.below(sizeof attrs / sizeof attrs[0])]; if (at == 55) at = 0; w8(a, PUSH_SLOT_ATTR); w8(a, at); w8(a, u8(i64(rel))); }
+    else if (c < 66) { w8(a, r.chance(1, 2) ? PUSH_GLYPH_ATTR_OBS : PUSH_ATT_TO_GATTR_OBS); w8(a, r.chance(1, 10) ? r.below(6) : r.below(3)); w8(a, u8(i64(rel))); }
+    else if (c < 70) { w8(a, r.chance(1, 2) ? PUSH_GLYPH_ATTR : PUSH_ATT_TO_GLYPH_ATTR); w16(a, r.chance(1, 10) ? r.below(6) : r.below(3)); w8(a, u8(i64(rel))); }
+    else if (c < 80) { w8(a, r.chance(1, 2) ? PUSH_GLYPH_METRIC : PUSH_ATT_TO_GLYPH_METRIC); w8(a, r.below(11)); w8(a, u8(i64(rel))); w8(a, r.below(3)); }
+    else if (c < 84) { w8(a, PUSH_FEAT); w8(a, r.chance(1, 10) ? 1 : 0); w8(a, u8(i64(rel))); }
+    else if (c < 92) { w8(a, PUSH_ISLOT_ATTR); if (numUser && r.chance(1, 2)) { w8(a, 55); w8(a, u8(i64(rel))); w8(a, r.below(numUser)); } else { unsigned at = r.chance(1, 3) ? 15 : r.below(30); w8(a, at); w8(a, u8(i64(rel))); w8(a, at == 15 ? r.below(255) : 0); } }
+    else if (c < 96) { w8(a, PUSH_PROC_STATE); w8(a, r.below(4)); }
+    else w8(a, PUSH_VERSION);
+}
+static void gen_expr(Rng &r, unsigned depth, int rel_lo, int rel_hi, unsigned numUser, Bytes &a) {
+    if (depth == 0 || r.chance(2, 5)) { gen_leaf(r, rel_lo, rel_hi, numUser, a); return; }
+    u32 c = r.below(100);
+    if (c < 22) { static const u8 un[] = {NEG, NOT_, TRUNC8, TRUNC16, BITNOT}; gen_expr(r, depth - 1, rel_lo, rel_hi, numUser, a); w8(a, un[r.below(5)]); }
+    else if (c < 30) { gen_expr(r, depth - 1, rel_lo, rel_hi, numUser, a); w8(a, BITSET); w16(a, r.below(65536)); w16(a, r.below(65536)); }
+    else if (c < 90) { static const u8 bin[] = {6, 7, 8, 9, 10, 11, 16, 17, 19, 20, 21, 22, 23, 24, 62, 63, 8, 9, 6, 7}; gen_expr(r, depth - 1, rel_lo, rel_hi, numUser, a); gen_expr(r, depth - 1, rel_lo, rel_hi, numUser, a); w8(a, bin[r.below(20)]); }
+    else { for (int q = 0; q < 3; ++q) gen_expr(r, depth - 1, rel_lo, rel_hi, numUser, a); w8(a, COND); }
+}
+// Rule constraint for a rule of `len` slots of which the first k are pre-context: a plain condition on the slot under test
+// (references reach back into the pre-context only), or a chain of context items, each a condition on one named slot of the rule.
+static void gen_constraint(Rng &r, unsigned len, unsigned k, unsigned numUser, Bytes &c) {
+    if (r.chance(1, 3)) { c = {PUSH_SLOT_ATTR, 0, 0, PUSH_SHORT, 0x01, 0x00, 22 /*GTR*/, POP_RET}; return; }
+    if (r.chance(1, 3)) { gen_expr(r, 2, -int(k), 0, numUser, c); if (r.chance(1, 2)) { w8(c, PUSH_BYTE); w8(c, 0); w8(c, 20 /*NOT_EQ*/); } w8(c, POP_RET); return; }
+    unsigned items = 1 + r.below(len < 3 ? len : 3);
+    for (unsigned j = 0; j < items; ++j) {
+        int abs = int(r.below(len)), sref = abs - int(k);
+        Bytes inner; gen_expr(r, r.below(3), -abs, int(len) - 1 - abs, numUser, inner);
+        if (r.chance(1, 2)) { w8(inner, PUSH_BYTE); w8(inner, r.below(3)); w8(inner, 19 + r.below(6)); }
+        if (inner.size() > 200) { inner.clear(); w8(inner, PUSH_BYTE); w8(inner, 1); }
+        w8(c, CNTXT_ITEM); w8(c, u8(i64(sref))); w8(c, unsigned(inner.size())); c.insert(c.end(), inner.begin(), inner.end());
+        if (j) w8(c, AND_);
+    }
+    w8(c, POP_RET);
+}
+
+static void gen_action(Rng &r, unsigned len, bool subst, Bytes &a, unsigned numUser, unsigned pre = 0) {
+    const unsigned total = len + pre;   // len: slots the action walks (the rule minus its k pre-context slots)
     for (unsigned s = 0; s < len; ++s) {
         if (subst && s == 0 && r.chance(1, 30)) {    // the slot is deleted and a new one inserted in its place within one rule
             w8(a, DELETE); w8(a, INSERT); if (r.chance(1, 2)) { w8(a, PUT_GLYPH8); w8(a, r.below(NGLYPH_USED)); } w8(a, NEXT);
@@ -36,18 +87,26 @@ static void gen_action(Rng &r, unsigned len, bool subst, Bytes &a, unsigned numU
         }
         if (subst && r.chance(1, 6)) {      // a new slot inserted before input slot s (does not consume input)
             w8(a, INSERT); w8(a, PUT_GLYPH8); w8(a, r.below(NGLYPH_USED));
-            // inside the insert block the loader's slot reference is one behind: valid refs are [1-s, len-s]
-            if (r.chance(1, 2)) { w8(a, ASSOC); w8(a, 1); w8(a, u8(i64(1 + int(r.below(len)) - int(s)))); }
-            if (r.chance(1, 4)) { w8(a, PUSH_BYTE); w8(a, u8(i64(int(r.below(len)) - int(s)))); w8(a, ATTR_SET_SLOT); w8(a, 2); }
+            // inside the insert block the loader's slot reference is one behind: valid refs are [1-(s+pre), total-(s+pre)]
+            if (r.chance(1, 2)) { w8(a, ASSOC); w8(a, 1); w8(a, u8(i64(1 + int(r.below(total)) - int(s + pre)))); }
+            if (r.chance(1, 4)) { w8(a, PUSH_BYTE); w8(a, u8(i64(int(r.below(total)) - int(s + pre)))); w8(a, ATTR_SET_SLOT); w8(a, 2); }
             w8(a, NEXT);
         }
         unsigned nops = r.below(4);
         bool deleted = false;
         for (unsigned k = 0; k < nops && !deleted; ++k) {
             u32 c = r.below(100);
-            int rel_lo = -int(s), rel_hi = int(len - 1 - s);
+            int rel_lo = -int(s + pre), rel_hi = int(total - 1 - (s + pre));
             int rel = rel_lo + int(r.below(u32(rel_hi - rel_lo + 1)));
             if (r.chance(1, 80)) rel = int(r.below(7)) - 3;               // rarely outside the rule (mostly rejected by the loader)
+            if (r.chance(1, 7)) {    // a computed value written to (mostly) any slot attribute
+                gen_expr(r, 1 + r.below(3), rel_lo, rel_hi, numUser, a);
+                static const u8 wr[] = {ATTR_SET, ATTR_ADD, ATTR_SUB};
+                if (numUser && r.chance(1, 6)) { w8(a, r.chance(1, 2) ? IATTR_SET : IATTR_ADD); w8(a, 55); w8(a, r.below(numUser)); }
+                else if (r.chance(1, 8)) { unsigned at = r.chance(1, 3) ? 15 : r.below(30); w8(a, r.chance(1, 2) ? IATTR_SET : IATTR_SET_SLOT); w8(a, at); w8(a, at == 15 ? r.below(255) : 0); }
+                else { unsigned at = r.chance(1, 2) ? r.below(78) : (r.chance(1, 2) ? r.below(2) : 18 + r.below(4)); if (at == 55) at = 22; w8(a, wr[r.below(3)]); w8(a, at); }
+                continue;
+            }
             if (c < 22) { w8(a, PUSH_BYTE); w8(a, u8(i64(rel))); w8(a, ATTR_SET_SLOT); w8(a, 2); }                 // attach.to = slot(rel)
             else if (c < 30) { w8(a, PUSH_BYTE); w8(a, r.below(60)); w8(a, ATTR_SET); w8(a, 3 + r.below(2)); }      // attach.at x/y
             else if (c < 38) { w8(a, PUSH_SHORT); w16(a, r.chance(1, 8) ? 0x7FFF : r.below(2000)); w8(a, ATTR_SET); w8(a, r.below(2)); }   // advance x/y
@@ -98,12 +157,12 @@ static Bytes build_pass(const PassDef &pd, size_t base) {
     orm.push_back(unsigned(rulemap.size()));
     for (unsigned v : orm) w16(p, v);
     for (unsigned v : rulemap) w16(p, v);
-    w8(p, 0); w8(p, 0);                 // min/max pre-context
+    w8(p, pd.prectx); w8(p, pd.prectx); // min/max pre-context: every rule of the pass has the same one, so one start state
     w16(p, 0);                          // start state
     for (auto &rl : pd.rules) w16(p, u32(rl.match.size()));      // sort keys
-    for (size_t i = 0; i < pd.rules.size(); ++i) w8(p, 0);       // pre-contexts
+    for (size_t i = 0; i < pd.rules.size(); ++i) w8(p, pd.prectx);   // pre-contexts
     w8(p, 0);                           // collision threshold
-    w16(p, 0);                          // pass constraint length
+    w16(p, u32(pd.pcons.size()));       // pass constraint length
     // constraint offsets (0 = none), one dummy byte at offset 0
     size_t coff = 1; std::vector<unsigned> oc;
     for (auto &rl : pd.rules) { if (rl.constraint.empty()) oc.push_back(0); else { oc.push_back(unsigned(coff)); coff += rl.constraint.size(); } }
@@ -112,7 +171,7 @@ static Bytes build_pass(const PassDef &pd, size_t base) {
     size_t aoff = 0; for (auto &rl : pd.rules) { w16(p, u32(aoff)); aoff += rl.action.size(); } w16(p, u32(aoff));
     for (size_t k = 0; k < numTrans; ++k) { const Node &n = nodes[size_t(order[k])]; for (unsigned c = 0; c < numCols; ++c) { auto it = n.next.find(c + 1); w16(p, it == n.next.end() ? 0 : u32(newid[size_t(it->second)])); } }
     w8(p, 0);
-    set32(p, o_pc, u32(base + p.size())); set32(p, o_rc, u32(base + p.size()));
+    set32(p, o_pc, u32(base + p.size())); p.insert(p.end(), pd.pcons.begin(), pd.pcons.end()); set32(p, o_rc, u32(base + p.size()));
     w8(p, 0); for (auto &rl : pd.rules) p.insert(p.end(), rl.constraint.begin(), rl.constraint.end());
     set32(p, o_ac, u32(base + p.size()));
     for (auto &rl : pd.rules) p.insert(p.end(), rl.action.begin(), rl.action.end());
@@ -125,7 +184,8 @@ static void encode_prog(const std::vector<PassDef> &passes, unsigned nsub, unsig
     a = {i64(passes.size()), i64(nsub), i64(numUser), ijust_np ? 1 : 0, rtl ? 1 : 0, i64(h.flags), i64(h.just.size() / 4)};
     for (unsigned v : h.just) a.push_back(v);
     a.push_back(h.nlb);
-    for (auto &pd : passes) { a.push_back(pd.maxloop); a.push_back(i64(pd.rules.size()));
+    for (auto &pd : passes) { a.push_back(i64(pd.maxloop | (pd.prectx << 8) | (pd.pcons.empty() ? 0u : 0x400u))); a.push_back(i64(pd.rules.size()));
+        if (!pd.pcons.empty()) { a.push_back(i64(pd.pcons.size())); for (u8 c : pd.pcons) a.push_back(c); }
         for (auto &rd : pd.rules) { a.push_back(i64(rd.match.size())); for (unsigned g : rd.match) a.push_back(g); a.push_back(i64(rd.constraint.size())); for (u8 c : rd.constraint) a.push_back(c); a.push_back(i64(rd.action.size())); for (u8 c : rd.action) a.push_back(c); } }
 }
 static bool decode_prog(const std::vector<i64> &a, std::vector<PassDef> &passes, unsigned &nsub, unsigned &numUser, bool &ijust_np, bool &rtl, SynthHdr &h) {
@@ -134,9 +194,10 @@ static bool decode_prog(const std::vector<i64> &a, std::vector<PassDef> &passes,
     if (!get(v)) return false; ijust_np = v != 0; if (!get(v)) return false; rtl = v != 0;
     if (!get(v)) return false; h.flags = unsigned(v & 1); i64 nj; if (!get(nj) || nj < 0 || nj > 3) return false; for (i64 q = 0; q < 4 * nj; ++q) { if (!get(v)) return false; h.just.push_back(unsigned(v & 0xFF)); }
     if (!get(v)) return false; h.nlb = unsigned(v < 0 ? 0 : v); if (h.nlb > nsub) h.nlb = nsub;
-    for (i64 p = 0; p < np; ++p) { PassDef pd; i64 nr; if (!get(v)) return false; pd.maxloop = unsigned(v & 0xFF); if (!get(nr) || nr < 1 || nr > 32) return false;
-        for (i64 k = 0; k < nr; ++k) { RuleDef rd; i64 len; if (!get(len) || len < 1 || len > 8) return false; for (i64 q = 0; q < len; ++q) { if (!get(v)) return false; rd.match.push_back(1 + unsigned(u64(v - 1) % ALPHA)); }
-            i64 cl; if (!get(cl) || cl < 0 || cl > 64) return false; for (i64 q = 0; q < cl; ++q) { if (!get(v)) return false; rd.constraint.push_back(u8(v)); }
+    for (i64 p = 0; p < np; ++p) { PassDef pd; i64 nr; if (!get(v)) return false; pd.maxloop = unsigned(v & 0xFF); pd.prectx = unsigned((v >> 8) & 3); const bool haspc = (v & 0x400) != 0; if (!get(nr) || nr < 1 || nr > 32) return false;
+        if (haspc) { i64 pl; if (!get(pl) || pl < 0 || pl > 250) return false; for (i64 q = 0; q < pl; ++q) { if (!get(v)) return false; pd.pcons.push_back(u8(v)); } }
+        for (i64 k = 0; k < nr; ++k) { RuleDef rd; i64 len; if (!get(len) || len < 1 || len > 8) return false; if (len <= i64(pd.prectx)) pd.prectx = unsigned(len - 1); for (i64 q = 0; q < len; ++q) { if (!get(v)) return false; rd.match.push_back(1 + unsigned(u64(v - 1) % ALPHA)); }
+            i64 cl; if (!get(cl) || cl < 0 || cl > 700) return false; for (i64 q = 0; q < cl; ++q) { if (!get(v)) return false; rd.constraint.push_back(u8(v)); }
             i64 al; if (!get(al) || al < 0 || al > 400) return false; for (i64 q = 0; q < al; ++q) { if (!get(v)) return false; rd.action.push_back(u8(v)); }
             pd.rules.push_back(rd); }
         passes.push_back(pd); }
@@ -164,22 +225,26 @@ static void gen_prog(u64 seed, std::vector<i64> &out) {
             pd.rules.push_back(rd); passes.push_back(pd); continue;
         }
         unsigned nr = 1 + r.below(4);
+        const unsigned pk = r.chance(1, 4) ? 1 + r.below(2) : 0;     // pre-context shared by the rules of this pass
+        pd.prectx = pk;
+        if (r.chance(1, 8)) { gen_expr(r, 2, 0, 0, numUser, pd.pcons); w8(pd.pcons, POP_RET); if (pd.pcons.size() > 240) pd.pcons = {PUSH_BYTE, 1, POP_RET}; }
         for (unsigned k = 0; k < nr; ++k) {
-            RuleDef rd; unsigned len = 1 + r.below(3);
-            if (forest && r.chance(3, 4)) { rd.match = shared[r.below(u32(shared.size()))]; len = unsigned(rd.match.size()); }
-            else for (unsigned q = 0; q < len; ++q) rd.match.push_back(1 + r.below(r.chance(1, 2) ? 3 : ALPHA));
+            RuleDef rd; unsigned len = pk + 1 + r.below(3);          // whole rule, pre-context included
+            bool shared_match = false;
+            if (forest && r.chance(3, 4)) { const auto &m = shared[r.below(u32(shared.size()))]; if (m.size() > pk) { rd.match = m; len = unsigned(m.size()); shared_match = true; } }
+            if (!shared_match) for (unsigned q = 0; q < len; ++q) rd.match.push_back(1 + r.below(r.chance(1, 2) ? 3 : ALPHA));
             if (forest && r.chance(2, 3)) {
                 // every slot but one attaches to some other slot of the rule (mostly to one common parent), now and then something else happens too
                 unsigned parent = r.below(len);
-                for (unsigned sl = 0; sl < len; ++sl) {
+                for (unsigned sl = pk; sl < len; ++sl) {
                     if (sl != parent || r.chance(1, 6)) { int tgt = r.chance(3, 4) ? int(parent) : int(r.below(len)); w8(rd.action, PUSH_BYTE); w8(rd.action, u8(i64(tgt - int(sl)))); w8(rd.action, ATTR_SET_SLOT); w8(rd.action, 2); }
                     if (i < nsub && r.chance(1, 10)) { if (r.chance(1, 2)) { w8(rd.action, PUT_COPY); w8(rd.action, u8(i64(int(r.below(len)) - int(sl)))); } else { w8(rd.action, DELETE); } }
                     w8(rd.action, NEXT);
                 }
                 w8(rd.action, RET_ZERO);
             } else
-            gen_action(r, len, i < nsub, rd.action, numUser);
-            if (!getenv("SYN_NOCONS") && r.chance(1, 5)) { rd.constraint = {PUSH_SLOT_ATTR, 0, 0, PUSH_SHORT, 0x01, 0x00, 22 /*GTR*/, POP_RET}; }
+            gen_action(r, len - pk, i < nsub, rd.action, numUser, pk);
+            if (!getenv("SYN_NOCONS") && r.chance(1, 4)) gen_constraint(r, len, pk, numUser, rd.constraint);
             pd.rules.push_back(rd);
         }
         passes.push_back(pd);
@@ -196,7 +261,7 @@ void silf_override(Store &st, const Fault &f) {
     const unsigned np = unsigned(passes.size());
     auto mx = st.tables.find(mktag("maxp")); if (mx == st.tables.end() || mx->second.size() < 6) return;
     unsigned nglyphs = be16(&mx->second[4]); if (nglyphs <= NGLYPH_USED + 1) return;
-    if (getenv("SYN_DUMP")) for (unsigned i = 0; i < np; ++i) { fprintf(stderr, "pass %u (%s) maxloop %u\n", i, i < nsub ? "subst" : "pos", passes[i].maxloop); for (auto &rd : passes[i].rules) { fprintf(stderr, "  rule match"); for (unsigned g : rd.match) fprintf(stderr, " g%u", g); fprintf(stderr, " action:"); for (u8 b : rd.action) fprintf(stderr, " %d", int(b)); fprintf(stderr, "%s\n", rd.constraint.empty() ? "" : " +constraint"); } }
+    if (getenv("SYN_DUMP")) for (unsigned i = 0; i < np; ++i) { fprintf(stderr, "pass %u (%s) maxloop %u prectx %u pcons %zu\n", i, i < nsub ? "subst" : "pos", passes[i].maxloop, passes[i].prectx, passes[i].pcons.size()); for (auto &rd : passes[i].rules) { fprintf(stderr, "  rule match"); for (unsigned g : rd.match) fprintf(stderr, " g%u", g); fprintf(stderr, " action:"); for (u8 b : rd.action) fprintf(stderr, " %d", int(b)); if (!rd.constraint.empty()) { fprintf(stderr, " constraint:"); for (u8 b : rd.constraint) fprintf(stderr, " %d", int(b)); } fprintf(stderr, "\n"); } }
     Bytes s;
     w16(s, nglyphs - 1); w16(s, 0); w16(s, 0);
     w8(s, np); w8(s, hdr.nlb); w8(s, nsub); w8(s, ijust_np ? np : nsub); w8(s, 0xFF); w8(s, hdr.flags); w8(s, 0); w8(s, 0);
@@ -273,7 +338,8 @@ void synth_debug(u64 from, u64 to) {
         {
             graphite2::Face::Table silf(f, graphite2::TtfUtil::Tag::Silf, 0x00050000);
             bool ok = silf && f.readGlyphs(0) && f.readFeatures() && f.readGraphite(silf);
-            ++hist[std::make_pair(ok ? 0u : f.error(), ok ? 0u : f.error_context())];
+            ++hist[std::make_pair(ok ? 0u : f.error(), ok ? 0u : f.error_context() & 0xFF)];
+            if (!ok && getenv("SYN_WHY")) { fprintf(stderr, "#### index %llu error %u context 0x%x (rule %u pass %u)\n", (unsigned long long)i, f.error(), f.error_context(), f.error_context() >> 24, (f.error_context() >> 8) & 0xFF); setenv("SYN_DUMP", "1", 1); Store st2; st2.tables = g_corpus.find(mf.s)->tables; silf_override(st2, mf.faults[0]); unsetenv("SYN_DUMP"); }
         }
     }
     for (auto &h : hist) printf("error=%u context=0x%x : %u\n", h.first.first, h.first.second, h.second);
